@@ -9,6 +9,22 @@ EVAL_HYP = (' Theorem hypotheses: the tree is well-formed (wf_node, decidable; t
             'user functions are pure total functions with an error result.')
 T_EVAL = 'Coq proof (mutual induction over the syntax tree of the evaluator model) + differential correspondence check'
 CLAIMS = {
+    'C01': {
+        'text': 'C01_refines_spec / C01_every_step / C01_filter_semantics (coq/Prop_C01.v, Refine1-2.v): for the FULL language the '
+                'evaluator model returns exactly what the independent step-by-step specification coq/Spec.v selects — values, '
+                'multiplicity, order, accessor wrapping — and fails exactly when the specification selects nothing; unbounded path '
+                'depth, filter nesting and document size. Partial in one respect: the text->tree link is not proved (parser model vs '
+                'real parser by tree dumps and through the API). Correspondence: generated paths x documents; the extracted '
+                'specification runs next to the model on every case (a model/spec difference is reported).',
+        'note': NOTE_COMMON + EVAL_HYP + ' The specification states the library conventions explicitly (whole-match $ operands, both-absent rule of path == path).',
+        'technique': 'Coq refinement proof (implementation model vs specification, mutual induction) + differential correspondence check'},
+    'C08': {
+        'text': 'C08_compose (coq/Prop_C08.v): on the specification, for a well-formed prefix P and a continuation Q without `$` and '
+                'without aggregates, values(P++Q) = concatenation over values v of P of values($Q on v); C08_compose_same_root for any '
+                'Q; with C01_refines_spec this transports to the implementation model and gives "fails iff the concatenation is '
+                'empty". Direct oracle needing no model: every split of generated paths, three kinds of retrievals on the real library.',
+        'note': NOTE_COMMON + ' That the parser links P++Q as append_deep P Q is tied by tree dumps only.',
+        'technique': 'Coq proof on the specification (composition + root-independence by mutual induction) + three-retrieval relational oracle'},
     'C02': {
         'text': 'PARTIAL. Proved on the regenerated grammar and the action model: the PEG part never fails (every rejection is raised by '
                 'an action, C02_peg_never_fails), the comparison builders put operands in rank order with at most one swap and no '
